@@ -42,7 +42,7 @@ def entryPasses (orc : Oracle) (e : Entry) : Bool :=
     | none => true
     | some a =>
       let actual := if e.attrs.cst then a.cst else if e.hasFields then a.sexpFields else a.sexpPlain
-      a.hasError || containsSub "ERROR".toList actual || containsSub "MISSING".toList actual || actual == e.output
+      a.hasError || containsSub strERROR actual || containsSub strMISSING actual || actual == e.output
 
 structure JudgeIn where
   fx : Fixes
